@@ -1,0 +1,24 @@
+//! Verification-only (`--cfg libp2p_verif`) facade: re-exports of crate-private items for the
+//! runtime monitors in `/verif`. Forwarding only; compiled out unless the cfg is set.
+
+/// Routing table: controllable clock, `Table` facade, raw `KeyBytes`.
+pub mod kbucket {
+    pub use crate::kbucket::{
+        KeyBytes,
+        verif::{Applied, BucketSnap, EntryKind, InsertOutcome, Instant, Table, clock},
+    };
+}
+
+/// Query peer iterators.
+pub mod query {
+    pub use crate::query::verif::{
+        ClosestPeersIter, ClosestPeersIterConfig, DisjointIter, FixedIter, PeersIterState,
+    };
+}
+
+/// Wire protocol: the real codec and message types. A `Codec` is obtained the way the handler
+/// obtains it: `ProtocolConfig::upgrade_{in,out}bound(io, info)` yields
+/// `Framed<_, Codec<_, _>>`.
+pub mod protocol {
+    pub use crate::protocol::{Codec, KadRequestMsg, KadResponseMsg, ProtocolConfig};
+}
